@@ -423,7 +423,7 @@ func vC16OracleCrawl(c *vh.Case, res *vC16CrawlResult) (hops int) {
 	for _, cb := range res.cbs {
 		if cb.Success {
 			nOK[cb.Peer]++
-			okPeers[cb.Peer] = cb.Peers
+			okPeers[cb.Peer] = append(okPeers[cb.Peer], cb.Peers...) // one callback per peer unless the exactly-once clauses fail
 		} else {
 			nFail[cb.Peer]++
 		}
@@ -492,7 +492,7 @@ func vC16OracleCrawl(c *vh.Case, res *vC16CrawlResult) (hops int) {
 		if nOK[p] == 0 {
 			continue
 		}
-		for q := range get(p).named { // what the peer really sent (the callback list was compared with it above)
+		for _, q := range okPeers[p] { // the list handed to the success callback (compared with what the peer really sent above)
 			if !exp[q] {
 				exp[q] = true
 				queue = append(queue, q)
